@@ -73,6 +73,12 @@ func Load(o Options) (*Program, error) {
 	if o.Whole {
 		mode |= packages.NeedDeps
 	}
+	if exe, err := os.Executable(); err == nil {
+		tc := filepath.Join(filepath.Dir(exe), "tc")
+		if _, err := os.Stat(filepath.Join(tc, "go")); err == nil && !strings.HasPrefix(os.Getenv("PATH"), tc+":") {
+			os.Setenv("PATH", tc+":"+os.Getenv("PATH"))
+		}
+	}
 	env := append(os.Environ(), "GOFLAGS=-mod=readonly", "GOWORK=off", "GOPROXY=off", "GOSUMDB=off", "GOTOOLCHAIN=local")
 	env = append(env, o.Env...)
 	cfg := &packages.Config{
